@@ -23,12 +23,12 @@ pub fn def() -> PropDef {
 
 fn streams() -> Vec<Stream> {
     vec![
-        Stream { name: "send-all", count: (6_000, 200_000), exhaustive: false, run: send_all },
-        Stream { name: "send-all-large", count: (160, 6_000), exhaustive: false, run: send_all_large },
+        Stream { name: "send-all", count: (6_000, 120_000), exhaustive: false, run: send_all },
+        Stream { name: "send-all-large", count: (160, 1_500), exhaustive: false, run: send_all_large },
     ]
 }
 
-fn send_all(ctx: &mut Ctx, r: &mut Rng, _i: u64) {
+pub fn send_all(ctx: &mut Ctx, r: &mut Rng, _i: u64) {
     let n = match r.below(6) {
         0 => 1,
         1 => 2 + r.usize(4),
